@@ -15,13 +15,15 @@ CHUNK = 1
 CASE_TIMEOUT = 1800
 RULE = ("explicit-state search over process states: a state is the canonical fingerprint of every attribute of every loaded pdpy11 module, "
         "class and module-level instance (nesting-depth counter, awaiting stack, handler stack, per-class tables; Deferred.next_instance_id "
-        "normalised away); events = 33 assemblies (valid, forward references and deferred sizes, operator caches inside .repeat, warnings, "
+        "normalised away); events = 49 assemblies (valid, forward references and deferred sizes, operator caches inside .repeat, warnings, "
         "errors of every phase, caught and reported cycles, formerly crashing inputs, multi-file, include, .once, other charset, command-"
-        "line runs writing files, and 6 abort points where the report handler raises at the j-th report). Breadth-first from the import-"
+        "line runs writing files, nested caret brackets, names of metacommands used as ordinary names, character literals in main and "
+        "included files under three charsets, exports followed by private names of the same spelling, many local-label regions, normal "
+        "and turbo tapes, and 6 abort points where the report handler raises at the j-th report). Breadth-first from the import-"
         "time state with fork() (a forked child is an exact copy of the interpreter): every event is applied in every newly found state "
         "until the graph closes; in every state every event's result (status, base, bytes, files, diagnostics by severity, kind, "
         "position) must equal its result in a pristine process. Independently of the fingerprint: every ordered pair (thorough: triple) "
-        "of events, and two Eulerian histories of length 1090 that contain every ordered pair, checked after every step; the whole event "
+        "of events, and two Eulerian histories that contain every ordered pair, checked after every step; the whole event "
         "set under PYTHONHASHSEED 0..7 (thorough 0..63 and random) in fresh processes; command-line events re-run as real 'python -m "
         "pdpy11' processes. states/transitions are those of the state graph; non-trivial = distinct (history, event)")
 ASSUMPTIONS = ["hanging programs are not events (a run that never ends has no 'after'); since the repairs none of the catalogue inputs hangs",
@@ -29,8 +31,8 @@ ASSUMPTIONS = ["hanging programs are not events (a run that never ends has no 'a
 
 
 def bound(tier):
-    return "state graph closed (all events in all reachable states); all %s of 33 events; 2 histories of length 1090; hash seeds %s" % (
-        "ordered triples" if tier == "thorough" else "ordered pairs", "0..63 + random" if tier == "thorough" else "0..7")
+    return "state graph closed (all events in all reachable states); all %s of %d events; 2 Eulerian histories; hash seeds %s" % (
+        "ordered triples" if tier == "thorough" else "ordered pairs", n_events(), "0..63 + random" if tier == "thorough" else "0..7")
 
 
 def n_events():
